@@ -143,7 +143,7 @@ static void report_five(const char *tag, char *buf)
 }
 
 #define MAXTOK 200000
-#define OP_TIME_LIMIT_S 10
+#define OP_TIME_LIMIT_S 4
 
 int main(void)
 {
